@@ -24,6 +24,14 @@ function on the real Routine):
            ['call', tgt, meth, m]  tgt.meth() with tgt 'self' or a routine
                                    name; m = 'c' the body catches exceptions,
                                    m = 'p' they propagate (body fails)
+           ['embed', tgt]          last = yield from tgt.__embed__(last): every
+                                   value of routine tgt is yielded on by this
+                                   routine, the values sent in are passed to
+                                   tgt.next(); ends when tgt.next() raises
+                                   StopStream (or its subclass PausedStream),
+                                   other exceptions propagate
+                                   [Stream.__embed__ docstring + source of
+                                   the public protocol, guide: embedding]
            ['wait', c]             yield from cond.wait()
            ['fvget', f]            last = yield from flowvar.value
            ['set', c, bool] ['signal', c] ['unhang', c]
@@ -264,6 +272,14 @@ class RefRoutine:
                 elif act[3] == 'p':
                     return self._fail(out[1])
                 continue
+            if a == 'embed':
+                out = w.r[act[1]].call('next', self.last)
+                if out[0] == 'exc':
+                    if out[1] in ('StopStream', 'PausedStream'):
+                        continue            # embedded stream ended
+                    return self._fail(out[1])
+                self.pc = idx               # stay in the embedding loop
+                return self._suspend(out[1], 'yield')
             if a == 'wait':
                 c = w.conds[act[1]]
                 if w.holds(c):
@@ -512,6 +528,22 @@ def selftest():
     w.r['a'].reset()
     w.unhang('c')
     assert w.pending['a'] == 0 and w.stale == {'a'} and not w.owed('a')
+    # embedding: the values of the embedded routine are yielded on, sent
+    # values reach it, its end (StopStream) ends the embedding; waiting inside
+    # an embedded routine parks the playing (outermost) routine
+    w = RefWorld({'o': G([['embed', 'i'], ['yield', 'x']]),
+                  'i': G([['yield', 1], ['echo']])})
+    o = w.r['o']
+    assert o.next() == ret(1) and o.next(7) == ret(7)
+    assert o.next() == ret('x') and w.r['i'].state == 'Done'
+    assert o.next() == exc('StopStream')
+    w = RefWorld({'o': G([['embed', 'i']]), 'i': G([['wait', 'c']])},
+                 conds=['c'])
+    w.r['o'].play()
+    assert w.wake('o') == ret('hang') and w.conds['c'].waiting == ['o']
+    w.unhang('c')
+    assert w.pending == {'o': 1, 'i': 0}
+    assert w.wake('o') == exc('StopStream')
     # FlowVar docstring
     w = RefWorld({'a': G([['fvget', 'f'], ['echo']])}, fvs=['f'])
     w.r['a'].play()
